@@ -43,7 +43,7 @@ func main() {
 			}
 			return nil
 		}
-		if strings.HasSuffix(p, ".go") && !strings.HasSuffix(p, "_test.go") && !strings.HasSuffix(p, "verif_hooks.go") {
+		if strings.HasSuffix(p, ".go") && !strings.HasSuffix(p, "_test.go") && !strings.Contains(filepath.Base(p), "verif_hooks") {
 			files = append(files, p)
 		}
 		return nil
